@@ -247,6 +247,9 @@ pub struct Sealed {}
 //@@ type file=fe2o3-amqp/src/link/delivery.rs kind=struct name=DeliveryInfo
 //@@ end
 pub enum DispositionError { IllegalState, SessionStopped(SessionStopReason) }
+pub open spec fn detach_stop_err(stop: Option<SessionStopReason>) -> DetachError { match stop { Some(r) => DetachError::SessionStopped(r), None => DetachError::IllegalState } }
+/// what a link operation reports when the channel to its session is closed: the reason the session (or its connection) published before closing it
+pub open spec fn disp_stop_err(stop: Option<SessionStopReason>) -> DispositionError { match stop { Some(r) => DispositionError::SessionStopped(r), None => DispositionError::IllegalState } }
 // ReceiverLink<T>: the fields dispose touches (R11)
 pub struct ReceiverLinkD {
     pub rcv_settle_mode: ReceiverSettleMode,
@@ -261,7 +264,7 @@ impl ReceiverLinkD {
 //@@ subst `let mut lock = self.unsettled.write();` => `let mut lock = &mut self.unsettled;` rule=R4
 //@@ subst `lock.as_mut() .and_then(|map| map.swap_remove(&delivery_info.delivery_tag))` => `opt_swap_remove(&mut *lock, &delivery_info.delivery_tag)` rule=R15
 //@@ subst `lock.get_or_insert(OrderedMap::new()) .insert(delivery_info.delivery_tag.clone(), Some(state.clone()))` => `opt_insert(&mut *lock, delivery_info.delivery_tag.clone(), Some(state.clone()))` rule=R15
-//@@ subst `|_v0|` => `|_v0: ChanSendError|` rule=optional-R5
+//@@ subst `.map_err(|_v0| __E1)` => `.map_err(|_v0: ChanSendError| -> (o: DispositionError) ensures o == disp_stop_err(self.session_stop_reason.val()) { __E1 })` rule=R18
 //@@ spec
     ensures
         ({
@@ -277,6 +280,7 @@ impl ReceiverLinkD {
             &&& !known ==> final(writer).sent@ == old(writer).sent@ && r is Ok                                            // [C02.receiver.unknown-delivery] an already settled / unknown delivery produces no disposition
             &&& r is Err ==> final(writer).sent@ == old(writer).sent@
         }),
+        r is Err ==> r == Err::<(), DispositionError>(disp_stop_err(old(self).session_stop_reason.val())),   // [C14.link.closed-channel-reports-stop-reason] the only way a disposition fails is the closed channel to the session, and the error says WHY the session stopped (the reason published before the channel was closed: the peer's End / Close with its error, the connection's fate) -- IllegalState only if none was recorded
         final(self).rcv_settle_mode == old(self).rcv_settle_mode,
 //@@ end
 
@@ -288,7 +292,7 @@ impl ReceiverLinkD {
 //@@ subst `lock.as_mut() .and_then(|map| map.swap_remove(&info.delivery_tag));` => `opt_swap_remove(&mut *lock, &info.delivery_tag);` rule=R15
 //@@ subst `lock.get_or_insert(OrderedMap::new()) .insert(info.delivery_tag.clone(), Some(state.clone()));` => `opt_insert(&mut *lock, info.delivery_tag.clone(), Some(state.clone()));` rule=R15
 //@@ subst `consecutive_infos.last().map(|el| el.delivery_id)` => `Some(consecutive_infos[consecutive_infos.len() - 1].delivery_id)` rule=R19
-//@@ subst `|_v0|` => `|_v0: ChanSendError|` rule=optional-R5
+//@@ subst `.map_err(|_v0| __E1)` => `.map_err(|_v0: ChanSendError| -> (o: DispositionError) ensures o == disp_stop_err(self.session_stop_reason.val()) { __E1 })` rule=R18
 //@@ spec
     ensures
         final(self).rcv_settle_mode == old(self).rcv_settle_mode,
@@ -426,7 +430,7 @@ impl<R, T, F, M> Link<R, T, F, M> {
 //@@ fn file=fe2o3-amqp/src/link/mod.rs impl=`impl<R, T, F, M> endpoint::LinkDetach for Link<R, T, F, M> where R: role::IntoRole + Send + Sync, T: Send, F: AsRef<LinkFlowState<R>> + Send + Sync, M: AsDeliveryState + Send + Sync,` name=send_detach
 //@@ param writer : &mut ChanSender<LinkFrame>
 //@@ subst `handle.into()` => `output_to_handle(handle)` rule=R16
-//@@ subst `.map_err(|_v0| __E1)` => `.map_err(|_v0: ChanSendError| -> (o: DetachError) ensures o is SessionStopped || o is IllegalState { __E1 })` rule=R18
+//@@ subst `.map_err(|_v0| __E1)` => `.map_err(|_v0: ChanSendError| -> (o: DetachError) ensures o == detach_stop_err(self.session_stop_reason.val()) { __E1 })` rule=R18
 //@@ spec
     ensures
         ({
@@ -452,6 +456,7 @@ impl<R, T, F, M> Link<R, T, F, M> {
             &&& legal && old(self).output_handle is None ==> r is Err && final(writer).sent@ == old(writer).sent@   // [C13.link.no-frame-after-detach] without a handle nothing is sent
         }),
         r is Err && r->Err_0 is ClosedByRemote ==> old(self).local_state is CloseReceived && !closed,
+        r is Err && final(writer).failures@ > old(writer).failures@ ==> r == Err::<(), DetachError>(detach_stop_err(old(self).session_stop_reason.val())),   // [C14.link.closed-channel-reports-stop-reason] a detach that cannot be queued because the session is gone fails with the reason the session published (SessionStopped(reason)); the caller learns whether the session or the connection stopped and the peer's error if there was one
         final(self).input_handle == old(self).input_handle && final(self).name == old(self).name,
 //@@ end
 }
